@@ -11,6 +11,7 @@ import HawkModel.Drv.Util
       harness/oom_h.c counts them.  `fn=cost` gives the measured request count of a non-extracted callee.
       prints: ctor=<n> mode=<m> k=<k> rc=<ok|fail|unknown> nreq=<n|?> leaked=<n> badrel=<n> stop=<step|->
   ecs lines: new <capa> <orc> | ncat <n> <orc> | ncpy <n> <orc> | setcapa <c> <orc> | setlen <n> <orc> | clear
+             | nrcat <n> <orc> | nccat <n> <orc> | del <i> <n> | amend <pos> <len> <n> <orc>
       prints: ret=<n|ENOMEM> len=<n> capa=<n> ptr=<0|1> s=<contents>
   gc <p0> <p1> <p2> <p3> <t0> <t1> <t2> <orc>   /  mk <same>
       prints the event trace of gcCallocVal / makeContainerVal
@@ -168,6 +169,18 @@ def step (st : St) (line : String) : St × String :=
   | ["setlen", n, orc] =>
     let r := st.ecs.setlen (num n) (parseOrc orc)
     ({ st with ecs := r.ecs }, showEcs r)
+  | ["nrcat", n, orc] =>
+    let r := st.ecs.nrcat (gen st.ctr (num n)) (parseOrc orc)
+    ({ ecs := r.ecs, ctr := st.ctr + num n }, showEcs r)
+  | ["nccat", n, orc] =>
+    let r := st.ecs.nccat 122 (num n) (parseOrc orc)
+    ({ st with ecs := r.ecs }, showEcs r)
+  | ["del", i, n] =>
+    let e := st.ecs.del (num i) (num n)
+    ({ st with ecs := e }, showEcs { ecs := e, ret := .ok e.len, rest := [] })
+  | ["amend", pos, len, n, orc] =>
+    let r := st.ecs.amend (num pos) (num len) (gen st.ctr (num n)) (parseOrc orc)
+    ({ ecs := r.ecs, ctr := st.ctr + num n }, showEcs r)
   | ["clear"] =>
     let e := st.ecs.clear
     ({ st with ecs := e }, showEcs { ecs := e, ret := .ok 0, rest := [] })
